@@ -26,6 +26,9 @@ structure AWord where
   pieces : List Piece := []
   dq : Bool := false                   -- the whole word inside double quotes
   sq : Bool := false                   -- the whole word inside single quotes (literal pieces only)
+  /-- a LITERAL word `~text…` spelled by quoting the text after the tilde (`~"a"`, `~'a b'`, `~\a`): a quote in the
+      tilde-prefix suppresses tilde expansion, the value is `~text`, there is no tilde node -/
+  qtilde : Option (Str × Nat) := none
   deriving Repr, Inhabited
 
 inductive RedirT where
@@ -148,6 +151,17 @@ def renderWord (renderBody : Nat → R (Option Node)) (w : AWord) (asAssign : Op
     discard <| emit "'"
   else
     if w.dq then discard <| emit "\""
+    match w.qtilde with
+    | some (u, q) =>
+      if !w.dq then
+        discard <| emit "~"; value := value ++ ['~']
+        if q == 1 then
+          for c in u do
+            discard <| emit "\\"; discard <| emitS [c]
+        else if q == 2 then discard <| emit "\""; discard <| emitS u; discard <| emit "\""
+        else discard <| emit "'"; discard <| emitS u; discard <| emit "'"
+        value := value ++ u
+    | none => pure ()
     match w.tilde with
     | some u =>
       let p ← emitS ('~' :: u)
@@ -574,7 +588,8 @@ def genWord (depth : Nat) (genBody : R Nat) (first : Bool) : R AWord := do
   let ps := if first then (match ps with | .lit s :: r => .lit ('c' :: s.filter (· != '=')) :: r | r => r) else ps
   let dq := style == 1 || style == 2
   let tilde ← if !first && style == 3 then pure (some (← pickFrom ["", "u", "bin"]).toList) else pure none
-  return { pieces := ps, dq := dq, tilde := tilde }
+  let qtilde ← if !first && style == 4 then pure (some ((← pickFrom ["a", "u", "a b", "bin"]).toList, ← pick 3)) else pure none
+  return { pieces := ps, dq := dq, tilde := tilde, qtilde := qtilde }
 
 def genRedir (depth : Nat) (genBody : R Nat) : R RedirT := do
   let fd ← match ← pick 4 with | 0 => pure (some 2) | 1 => pure (some 10) | _ => pure none
